@@ -146,6 +146,42 @@ def split_keep(data, newline, unit=1, offset=0):
     return out
 
 
+def split_indented(body, nlb, unit, indent, sig=b'', exact=False):
+    """Split an (optionally indented) content body into lines the way a
+    strict reader must: at each line start skip up to `indent` ASCII spaces
+    (exactly `indent` if exact), skip the codec signature on the first line,
+    then scan code-unit-aligned for the newline.
+    Returns (raw_lines, stripped_lines, terminated) or None if exact and a
+    line lacks its indentation."""
+    raw = []
+    stripped = []
+    pos = 0
+    first = True
+    terminated = True
+    while pos < len(body):
+        n = 0
+        while n < indent and body[pos + n:pos + n + 1] == b' ':
+            n += 1
+        if exact and n != indent:
+            return None
+        start = pos + n
+        off = start
+        if first and sig and body.startswith(sig, start):
+            off += len(sig)
+        i = find_aligned(body[off:], nlb, unit)
+        if i < 0:
+            raw.append(body[pos:])
+            stripped.append(body[start:])
+            terminated = False
+            break
+        end = off + i + len(nlb)
+        raw.append(body[pos:end])
+        stripped.append(body[start:end])
+        pos = end
+        first = False
+    return raw, stripped, terminated
+
+
 # ------------------------------------------------------------------- JSON
 
 def _json_str(s):
@@ -453,36 +489,36 @@ def parse(data):
                     except Exception:
                         raise ParseError('codec', hdr_line, hdr_line + 1)
                 le = options.get('line_endings')
-                bom = _bom_len(body, eff)
+                sig = signature(eff) if eff else b''
+                indent = 0
+                if kind == 'preamble':
+                    indent = options.get('indent', 0)
+                    if not isinstance(indent, int) or indent < 0:
+                        raise ParseError('indent', hdr_line, hdr_line + 1)
+                unit = unit_size(eff)
                 if le is not None:
                     if le not in ('unix', 'dos'):
                         raise ParseError('line_endings', hdr_line,
                                          hdr_line + 1)
                     k = le
                 else:
-                    k = detect_kind_bytes(body, eff, bom)
+                    # first-line detection: find the first (aligned) LF of
+                    # the first line and look at what precedes it
+                    fl = split_indented(body, nl('unix', eff), unit, indent,
+                                        sig)
+                    k = 'unix'
+                    if fl[0] and fl[1][0].endswith(nl('dos', eff)):
+                        k = 'dos'
                 nlb = nl(k, eff)
-                unit = unit_size(eff)
-                lines = split_keep(body, nlb, unit, bom)
+                raw, lines, terminated = split_indented(body, nlb, unit,
+                                                        indent, sig)
                 hi = hdr_line + max(1, len(lines))
                 if kind == 'meta' and options.get('format', 'json') != 'json':
                     raise ParseError('format', hdr_line, hi)
-                if not body.endswith(nlb) or not lines:
+                if not lines or not terminated:
                     raise ParseError('newline', hdr_line, hi)
                 if kind == 'preamble':
-                    indent = options.get('indent', 0)
-                    if not isinstance(indent, int) or indent < 0:
-                        raise ParseError('indent', hdr_line, hi)
-                    if indent:
-                        stripped = []
-                        for ln in lines:
-                            n = 0
-                            while n < indent and ln[n:n + 1] == b' ':
-                                n += 1
-                            stripped.append(ln[n:])
-                        body2 = b''.join(stripped)
-                    else:
-                        body2 = body
+                    body2 = b''.join(lines)
                     if eff is None:
                         rec['text'] = body2
                     else:
@@ -490,9 +526,6 @@ def parse(data):
                             rec['text'] = body2.decode(eff)
                         except UnicodeDecodeError:
                             raise ParseError('decode', hdr_line, hi)
-                        if not rec['text'].endswith(
-                                {'unix': '\n', 'dos': '\r\n'}[k]):
-                            raise ParseError('newline', hdr_line, hi)
                 elif kind == 'meta':
                     try:
                         text = body if eff is None else body.decode(eff)
